@@ -297,6 +297,13 @@ struct SeqRun
         return o + "}";
     }
     bool is_ttl() const { return tr.ttl != TtlMode::none; }
+    // The bare twin executes ranges as written, like R; once R is gone (diverged, legitimately or
+    // not) the only reference left is S, which is not comparable with B across range calls.
+    void drop_R()
+    {
+        R.reset();
+        b_compare = false;
+    }
     // the property that states this container's eviction order (nullptr: none / random)
     const char* policy_prop() const
     {
@@ -585,7 +592,7 @@ struct SeqRun
                              std::to_string(f.hit) + ", value " + std::to_string(g.val) + "/" + std::to_string(f.val) + ", count " +
                              std::to_string(g.count) + "/" + std::to_string(f.count) + ")", true))
                     return;
-                R.reset(); // diverged: stop comparing this twin
+                drop_R(); // diverged: stop comparing this twin
             }
         }
         if (D)
@@ -657,7 +664,7 @@ struct SeqRun
                     if (fail({"C18"}, "range.size_bounds",
                              "size() of the range-driven instance (" + std::to_string(r.size) + ") outside [live, capacity]", true))
                         return;
-                    R.reset();
+                    drop_R();
                 }
             }
             else if (r.size != o.size || r.empty != o.empty)
@@ -666,7 +673,7 @@ struct SeqRun
                          "size() differs between range-driven (" + std::to_string(r.size) + ") and single-driven (" +
                              std::to_string(o.size) + ") instance", true))
                     return;
-                R.reset();
+                drop_R();
             }
         }
         if (D)
@@ -795,7 +802,8 @@ struct SeqRun
             g_seq_call_hook("");
         note({res});
         mirror_D(op, {res});
-        writes[op.val]     = WriteInfo{k, false};
+        if (!writes.count(op.val))
+            writes[op.val] = WriteInfo{k, false}; // (a plan may write the value a key already holds once more)
         const int64_t dl   = eff_deadline(op.ttl_ms);
         bool          created = false, updated = false;
 
@@ -1570,7 +1578,7 @@ struct SeqRun
                 // S is probed between the singles and the other instances are not: where lookups reap expired
                 // entries more eagerly than today, an update-only insert or an erase addressed to a key that
                 // expired (possibly earlier in this very range) may legitimately come out differently there
-                const auto sx = b_exempt(s);
+                const auto sx = tr.purge_every_call ? std::pair<bool, bool>{false, false} : b_exempt(s);
                 if (sx.first)
                 {
                     exempt.first = true;
@@ -1600,10 +1608,10 @@ struct SeqRun
                 st.bump(std::string("probe.range.") + op_name(op.kind));
                 if (singles.size() > cfg.capacity && op.kind == OpKind::insert_range)
                     st.bump("probe.range_longer_than_capacity");
-                if (rr != cat && exempt.first)
+                if (rr != cat && exempt.first && !tr.purge_every_call)
                 {
                     st.bump("open.c18_exempt_result_differs");
-                    R.reset(); // the logical states may have diverged legitimately
+                    drop_R(); // the logical states may have diverged legitimately
                 }
                 else if (rr != cat)
                 {
@@ -1615,7 +1623,7 @@ struct SeqRun
                              std::string(op_name(op.kind)) + " returned " + result_str(rr) +
                                  " but the same single operations in order return " + result_str(cat), true))
                         return;
-                    R.reset();
+                    drop_R();
                 }
                 if (R && tr.purge_every_call)
                 {
@@ -1644,11 +1652,11 @@ struct SeqRun
                 Result rr = R->exec(op);
                 note(rr);
                 eval("C18");
-                if (rr != r && exempt.first)
+                if (rr != r && exempt.first && !tr.purge_every_call)
                 {
                     st.bump("open.c18_exempt_result_differs");
                     if (exempt.second)
-                        R.reset();
+                        drop_R();
                 }
                 else if (rr != r && !(is_ttl() && op.kind == OpKind::clean))
                 {
@@ -1656,7 +1664,7 @@ struct SeqRun
                              std::string(op_name(op.kind)) + " returned " + result_str(rr) +
                                  " on the range-driven instance but " + result_str(r) + " on the single-driven one", true))
                         return;
-                    R.reset();
+                    drop_R();
                 }
             }
             rres = r;
@@ -1823,7 +1831,7 @@ struct SeqRun
 
         // teardown at this (arbitrary) point of the history: value lifetime part of C08
         S.reset();
-        R.reset();
+        drop_R();
         B.reset();
         D.reset();
         eval("C08");
